@@ -8,7 +8,7 @@ from vlib import log
 # property -> (families(rnd, k) -> scenarios, description of what is driven)
 def _fams_C01(r, k): return F.fam_order(r, 60 * k) + F.fam_tolerance(r, 60 * k) + F.fam_gates(r, 60 * k) + F.fam_cont(r, 24 * k)
 def _fams_C02(r, k): return F.fam_tolerance(r, 80 * k) + F.fam_order(r, 40 * k) + F.fam_multi(r, 10 * k)
-def _fams_C03(r, k): return F.fam_tolerance(r, 140 * k) + F.fam_gates(r, 40 * k) + F.fam_cont(r, 20 * k)
+def _fams_C03(r, k): return F.fam_tolerance(r, 120 * k) + F.fam_gates(r, 40 * k) + F.fam_cont(r, 20 * k) + F.fam_crash_tol(r, 10 * k)
 def _fams_C04(r, k): return F.fam_tolerance(r, 50 * k) + F.fam_gates(r, 60 * k) + F.fam_cont(r, 50 * k) + F.fam_multi(r, 8 * k) + F.fam_order(r, 30 * k)
 def _fams_C05(r, k): return F.fam_retry(r, 40 * k) + F.fam_order(r, 40 * k)
 def _fams_C06(r, k): return F.fam_gates(r, 220 * k)
